@@ -504,7 +504,37 @@ func main() {
 		}
 		b.WriteString(fmt.Sprintf("  %q%s\n", k, sep))
 	}
-	b.WriteString("]\nend I3.Gen.Go\n")
+	// per translated function: the pointer/slice parameters (receiver first, "recv:" prefix) it writes through —
+	// T6's own effect analysis (fixpoint over callees), the subject of I3.Props.C16Gen
+	b.WriteString("]\n/-- (package, function, exported, receiver written, operands written) -/\ndef writtenParams : List (String × String × Bool × Bool × List String) := [\n")
+	first := true
+	for _, k := range translated {
+		fi := funcs[k]
+		if fi == nil {
+			continue
+		}
+		recvW := false
+		var ws []string
+		for i, m := range fi.mutated {
+			if !m || i >= len(fi.params) {
+				continue
+			}
+			if fi.hasRecv && i == 0 {
+				recvW = true
+				continue
+			}
+			ws = append(ws, fmt.Sprintf("%q", fi.params[i].Name()))
+		}
+		if !recvW && len(ws) == 0 {
+			continue
+		}
+		if !first {
+			b.WriteString(",\n")
+		}
+		first = false
+		b.WriteString(fmt.Sprintf("  (%q, %q, %v, %v, [%s])", fi.pkgdir, strings.TrimPrefix(k, fi.pkgdir+"."), fi.obj.Exported(), recvW, strings.Join(ws, ", ")))
+	}
+	b.WriteString("\n]\nend I3.Gen.Go\n")
 	writeIfChanged(filepath.Join(out, "GoIndex.lean"), b.String())
 	for k := range initModified {
 		if _, ok := globalDefs[k]; ok {
